@@ -161,9 +161,9 @@ PROPS.update({
     "C18": _e3("TestVerifC18", "Generated sequences of SetNumLoops/SetLoadBalance applied between phases on private managers, each phase with 1-32 goroutines calling Pick concurrently (the first phase races the lazy initialisation); pool size, membership, liveness of every poller (an operator registered on it must receive an event), descriptor census after shrink and Close, round-robin spread.",
                "scenario = initial size 1-5 x 1-4 phases of (loops 1-6, RoundRobin/Random, 1/2/8/32 goroutines x 1-40 Picks); non-trivial = at least one phase with concurrent Picks; distinct = scenario",
                quick=12, thorough=300),
-    "C19": _e3("TestVerifC19", "The E3 workloads (bulk streams both ways, Shutdown during traffic, concurrent dials incl. failing ones, pool reconfiguration, descriptor lifecycles) plus a close race (one reader, one writer, 1-4 closers on both ends) run under the Go race detector inside the documented concurrency contract; every race report is a violation.",
-               "workload drawn from {bulk, shutdown, dial, pool, closerace, fdsteps} with generated parameters; every case is non-trivial (several goroutines of different roles - poller, handler task, user reader/writer, closer - touch the same connection or pool); distinct = workload kind + parameters",
-               quick=10, thorough=250, variant="race", crash_is_violation=True, timeout_s=3000,
+    "C19": _e3("TestVerifC19", "The E3 workloads (bulk streams both ways, Shutdown during traffic, concurrent dials incl. failing ones, pool reconfiguration, descriptor lifecycles) plus a close race (one reader, one writer, 1-4 closers on both ends) and a writer stuck in a partial flush closed from other goroutines (with and without a slow user close callback) run under the Go race detector inside the documented concurrency contract; every race report is a violation.",
+               "workload drawn from {bulk, shutdown, dial, pool, closerace, blockedwrite, fdsteps} with generated parameters; every case is non-trivial (several goroutines of different roles - poller, handler task, user reader/writer, closer - touch the same connection or pool); distinct = workload kind + parameters",
+               quick=20, thorough=300, variant="race", crash_is_violation=True, timeout_s=3000,
                technique="generated concurrent workloads under the Go race detector (oracle: zero race reports outside the harness)",
                env={"GORACE": "halt_on_error=0"}),
 })
